@@ -8,7 +8,7 @@ print(f"""You are testing how good a verification effort is by planting a realis
 
 Setup (run exactly):
   git -C /repo worktree add --detach {wt} HEAD
-  cp -al /tmp/val2-target {wt}-target 2>/dev/null || true    # hard-link copy of a warm build cache (instant, no extra disk): your first build is then incremental (minutes, not an hour)
+  cp -al /tmp/val2-target {wt}-target 2>/dev/null && rm -rf {wt}-target/debug/.fingerprint/query_engine-* {wt}-target/debug/incremental/query_engine-* {wt}-target/debug/deps/*query_engine* || true    # hard-link copy of a warm build cache (instant, no extra disk): your first build is then incremental (minutes, not an hour)
   export CARGO_TARGET_DIR={wt}-target CARGO_NET_OFFLINE=true CARGO_PROFILE_DEV_DEBUG=0 CARGO_PROFILE_TEST_DEBUG=0 CARGO_BUILD_JOBS=6 RAYON_NUM_THREADS=4
   (export those in EVERY shell command you run: shell state does not persist between your commands. Disk and CPU are scarce and shared:
    the debug-info-free profile keeps your target directory near 5 GB instead of 20 GB; with the warm cache copied above an incremental build takes a few minutes (a cold one an hour on this loaded machine — never delete the cache). Run the full test suite at most
